@@ -235,7 +235,7 @@ class Ctx:
                 lines.append(json.dumps({"event": "Reset", "tid": str(tr.get("id", ti))}))
                 owner.append(ti)
                 for ev in tr["events"]:
-                    lines.append(json.dumps(ev))
+                    lines.append(json.dumps(_tlc_safe(ev)))
                     owner.append(ti)
             text = "\n".join(lines) + "\n"
             cfg_text = None
@@ -468,6 +468,15 @@ class Ctx:
             print("VIOLATION property=%s replay=%s" % (self.pid, path))
             print("  " + text)
         return 1 if self.violations else 0
+
+
+def _tlc_safe(x):
+    """TLC's Json module cannot read null: drop null fields, map null list items to ''."""
+    if isinstance(x, dict):
+        return {k: _tlc_safe(v) for k, v in x.items() if v is not None}
+    if isinstance(x, list):
+        return [_tlc_safe(v) if v is not None else "" for v in x]
+    return x
 
 
 def load_known():
